@@ -488,6 +488,12 @@ def make_plans(ctx, rd, ncalc):
                 pmin = 0.0
             dp = (pmax - pmin) / (ntv - 1)
             cases.append((label, dict(base, P_MIN=pmin, DELTA_P=dp, DELTA_P_SAMPLE=dp)))
+        # descending grids (DELTA_P < 0: the grid starts at its highest pressure): same range rule, same conversion
+        for label, top in (("descending-inside", 0.6 * lo_top), ("descending-overshoot", 0.5 * (lo_top + hi_top) if hi_top > lo_top
+                                                                   else lo_top * (1 + 1e-3)),
+                           ("descending-far-above", 1.5 * hi_top)):
+            dp = -(top - 0.0) / (ntv - 1)
+            cases.append((label, dict(base, P_MIN=top, DELTA_P=dp, DELTA_P_SAMPLE=dp)))
         plans.append((ci, ds, cases))
     return plans
 
@@ -716,10 +722,10 @@ def run(ctx):
     import time
     tm = {}
     t0 = time.time()
-    shards, info = stub_tie(ctx, rd, CALC, 18 if quick else 120)
+    shards, info = stub_tie(ctx, rd, CALC, 18 if quick else 600)
     tm["stub_tie_s"] = round(time.time() - t0, 2)
     t0 = time.time()
-    plans = make_plans(ctx, rd, 6 if quick else 40)
+    plans = make_plans(ctx, rd, 6 if quick else 120)
     rp = getattr(ctx, "replay_in", None)
     fi = ((rp or {}).get("failing_input") or {}).get("input")
     if isinstance(fi, dict) and "dataset" in fi and "settings" in fi:
